@@ -27,7 +27,7 @@ from cidersim.prng import Digest, Rng, derive
 from cidersim.simfs import SimFS
 
 LEVEL = "fault_enumeration"
-BUDGET = {"quick": 150, "thorough": 1500}
+BUDGET = {"quick": 150, "thorough": 1800}
 CASE_TIMEOUT = 900
 PROP = "C14"
 ROOT = "/simfs"
@@ -875,7 +875,7 @@ MODEL_GRID = [
 def plan(tier, seed, args):
     rng = Rng(derive(seed, PROP, "plan"))
     cases = []
-    ndraw = 2 if tier == "quick" else 6
+    ndraw = 2 if tier == "quick" else 12
     # enumerated: every registered map class x draws x styles
     for nm in all_map_names():
         for d in range(ndraw):
@@ -907,7 +907,7 @@ def plan(tier, seed, args):
     for d in range(2 if tier == "quick" else 8):
         cases.append({"kind": "corrupt", "seed": rng.below(10**6)})
     # seeded histories
-    nh = args.cases if args.cases is not None else (60 if tier == "quick" else 1500)
+    nh = args.cases if args.cases is not None else (60 if tier == "quick" else 12000)
     for i in range(nh):
         cases.append({"kind": "history", "seed": derive(seed, PROP, "hist", i) % (10**9), "restart": (i % (6 if tier == "quick" else 10) == 0)})
     # cheap cases last would starve the long ones; interleave deterministically
